@@ -101,11 +101,12 @@ class Case:
         self.lines = []          # ops after cfg/open
         self.hints = []
         self.feat = {}
+        self.extra_cfg = ""
 
     def cfg_line(self):
         c = self.cfg
         return "cfg " + " ".join("%s=%d" % (k, c[k]) for k in ("w", "h", "bpp", "pw", "ft", "xvp", "utf8", "wait", "view",
-                                                               "dsz", "fixscale", "fixpeek", "fixfur"))
+                                                               "dsz", "fixscale", "fixpeek", "fixfur")) + self.extra_cfg
 
     def data(self, b):
         if b:
@@ -662,39 +663,71 @@ def case_ws(rng, k, variant):
             else:
                 lines.append(b"Sec-WebSocket-Key1: 4 @1  46546xW%0l 1 5")
     hs = b"\r\n".join(lines) + (b"\r\n\r\n" if rng.random() < 0.9 else b"\r\n")
-    def frame(payload, opcode=2, masked=True, fin=True, lenmode=None):
+    b64 = rng.random() < 0.3
+    if b64:
+        lines = [l.replace(b"Sec-WebSocket-Protocol: binary", b"Sec-WebSocket-Protocol: base64") for l in lines]
+        hs = b"\r\n".join(lines) + (b"\r\n\r\n" if rng.random() < 0.9 else b"\r\n")
+    def frame(payload, opcode=None, masked=True, fin=True, lenmode=None, declared=None):
+        """one frame; declared: the length written into the header (the payload delivered may be shorter)"""
+        if opcode is None:
+            opcode = 1 if b64 else 2
+        if b64 and opcode == 1:
+            payload = base64.b64encode(payload)
         b0 = (0x80 if fin else 0) | (opcode & 0x0F)
-        n = len(payload)
+        n = len(payload) if declared is None else declared
         mk = bytes(rng.randrange(256) for _ in range(4))
         if lenmode == "16" or (lenmode is None and 126 <= n < 65536):
             hdr = bytes([b0, (0x80 if masked else 0) | 126]) + be16(n)
         elif lenmode == "64" or (lenmode is None and n >= 65536):
-            hdr = bytes([b0, (0x80 if masked else 0) | 127]) + struct.pack(">Q", n)
+            hdr = bytes([b0, (0x80 if masked else 0) | 127]) + struct.pack(">Q", n & 0xFFFFFFFFFFFFFFFF)
         else:
             hdr = bytes([b0, (0x80 if masked else 0) | (n & 0x7F)])
         body = bytes(p ^ mk[i % 4] for i, p in enumerate(payload)) if masked else payload
         return hdr + (mk if masked else b"") + body
     frames = []
-    inner = b"RFB 003.008\n" + bytes([1, 1]) + m_encodings([0]) + m_fur(0, 0, 0, cfg["w"], cfg["h"]) + m_key(1, 65)
-    for _ in range(rng.choice([0, 1, 3, 6])):
-        kind = rng.choice(["rfb", "rfb", "ctl", "big", "hdronly", "text", "unmasked", "len16small", "len64"])
-        if kind == "rfb":
-            n = rng.randint(1, max(1, len(inner)))
-            frames.append(frame(inner[:n])); inner = inner[n:] or b"\x04\x01\x00\x00\x00\x00\x00\x41"
-        elif kind == "ctl":
-            frames.append(frame(bytes(rng.randrange(256) for _ in range(rng.choice([0, 2, 125, 126]))), opcode=rng.choice([8, 9, 10, 11, 15])))
-        elif kind == "big":
-            frames.append(frame(bytes(rng.choice([2040, 2048, 2049, 4096, 70000])), opcode=2))
-        elif kind == "hdronly":
-            frames.append(frame(b"abcdef")[:rng.randint(1, 7)])
-        elif kind == "text":
-            frames.append(frame(base64.b64encode(inner[:9]), opcode=1))
-        elif kind == "unmasked":
-            frames.append(frame(b"\x03\x00" * 5, masked=False))
-        elif kind == "len16small":
-            frames.append(frame(b"xyz", lenmode="16"))
-        else:
-            frames.append(frame(b"xyz", lenmode="64"))
+    session = b"RFB 003.008\n" + bytes([1, 1]) + m_encodings([rng.choice([0, 5, 16])]) + m_fur(0, 0, 0, cfg["w"], cfg["h"]) + \
+        m_key(1, 65) + m_ptr(1, 1, 1) + m_cut(3, b"abc")
+    inner = session
+    style = rng.choice(["session", "session", "mixed", "mixed", "huge"])
+    if style == "session":
+        # the whole RFB session carried in frames whose sizes sit on the length-form boundaries
+        pad = m_cut(70000, b"z" * 70000) if rng.random() < 0.3 else b""
+        inner = session + pad
+        while inner:
+            n = rng.choice([1, 2, 12, 125, 126, 127, 65535, 65536]) if len(inner) > 200 else rng.randint(1, len(inner))
+            frames.append(frame(inner[:n])); inner = inner[n:]
+            if rng.random() < 0.15:
+                frames.append(frame(b"ping", opcode=rng.choice([9, 10])))
+    elif style == "huge":
+        # a frame that declares far more than it delivers (legal: the rest may still be on its way)
+        frames.append(frame(session[:rng.choice([0, 1, 12, 14])]))
+        decl = rng.choice([125, 126, 65535, 65536, (1 << 31) - 1, 1 << 31, (1 << 31) + 5, 1 << 32, (1 << 32) + 1, 1 << 62, (1 << 63) - 1,
+                           1 << 63, (1 << 64) - 1])
+        got = rng.choice([0, 1, 1, 5, 200, 3000])
+        frames.append(frame(bytes(rng.randrange(256) for _ in range(got)), lenmode="64" if (decl >= 65536 or rng.random() < 0.3) else None,
+                            declared=decl, opcode=rng.choice([2, 2, 1, 0])))
+    else:
+        for _ in range(rng.choice([1, 3, 6])):
+            kind = rng.choice(["rfb", "rfb", "ctl", "big", "hdronly", "text", "unmasked", "len16small", "len64", "decl"])
+            if kind == "rfb":
+                n = rng.randint(1, max(1, len(inner)))
+                frames.append(frame(inner[:n])); inner = inner[n:] or m_key(1, 66)
+            elif kind == "ctl":
+                frames.append(frame(bytes(rng.randrange(256) for _ in range(rng.choice([0, 2, 125, 126]))), opcode=rng.choice([8, 9, 10, 11, 15])))
+            elif kind == "big":
+                frames.append(frame(bytes(rng.choice([2040, 2048, 2049, 4096, 70000])), opcode=2))
+            elif kind == "hdronly":
+                frames.append(frame(b"abcdef")[:rng.randint(1, 7)])
+            elif kind == "text":
+                frames.append(frame(base64.b64encode(inner[:9]), opcode=1))
+            elif kind == "unmasked":
+                frames.append(frame(b"\x03\x00" * 5, masked=False))
+            elif kind == "len16small":
+                frames.append(frame(b"xyz", lenmode="16"))
+            elif kind == "len64":
+                frames.append(frame(b"xyz", lenmode="64"))
+            else:
+                frames.append(frame(b"xy", declared=rng.choice([126, 65536, 1 << 31, 1 << 32, 1 << 63]), lenmode="64"))
     blob = hs + b"".join(frames)
     emit_stream(rng, c, [blob], rng.choice(["one", "split", "split"]))
     if rng.random() < 0.4:
@@ -702,6 +735,81 @@ def case_ws(rng, k, variant):
     c.op("connect A" + (" pre" if rng.random() < 0.5 else ""))
     c.op("run A")
     c.op("update A")
+    c.op("witness")
+    return c
+
+
+_ENC_POOL = None
+def enc_pool():
+    """every encoding / pseudo-encoding number defined in rfbproto.h, every value of the level and
+    subsampling ranges, and the off-by-one neighbours of each range"""
+    global _ENC_POOL
+    if _ENC_POOL is None:
+        vals = set()
+        try:
+            txt = open(os.path.join(vlib.REPO, "include/rfb/rfbproto.h")).read()
+            for m in re.finditer(r"#define\s+rfbEncoding\w+\s+(0x[0-9A-Fa-f]+|\d+)", txt):
+                vals.add(int(m.group(1), 0) & 0xFFFFFFFF)
+        except OSError:
+            pass
+        vals.update(ENC.values())
+        ranges = [(0xFFFFFD00, 0xFFFFFD0F), (0xFFFFFE00, 0xFFFFFE64), (0xFFFFFF00, 0xFFFFFF0F), (0xFFFFFFE0, 0xFFFFFFEF),
+                  (0xFFFF0000, 0xFFFF0009), (0xFFFE0000, 0xFFFE0003), (0xFFFFFF10, 0xFFFFFF21), (0, 17)]
+        for lo, hi in ranges:
+            vals.update(range(lo, hi + 1))
+            vals.update([(lo - 1) & 0xFFFFFFFF, (hi + 1) & 0xFFFFFFFF])
+        for v in list(vals):
+            vals.update([(v - 1) & 0xFFFFFFFF, (v + 1) & 0xFFFFFFFF])
+        _ENC_POOL = sorted(vals)
+    return _ENC_POOL
+
+
+def rand_pixfmt(rng):
+    """client pixel formats the server accepts"""
+    return rng.choice([
+        None, None,
+        m_pixfmt(32, 24, 0, 1, 255, 255, 255, 16, 8, 0), m_pixfmt(32, 24, 1, 1, 255, 255, 255, 0, 8, 16),
+        m_pixfmt(32, 24, 0, 1, 255, 255, 255, 0, 8, 16), m_pixfmt(32, 30, 0, 1, 1023, 1023, 1023, 20, 10, 0),
+        m_pixfmt(16, 16, 0, 1, 31, 63, 31, 11, 5, 0), m_pixfmt(16, 15, 1, 1, 31, 31, 31, 10, 5, 0),
+        m_pixfmt(8, 8, 0, 1, 7, 7, 3, 0, 3, 6), m_pixfmt(8, 8, 0, 0), m_pixfmt(24, 24, 0, 1, 255, 255, 255, 16, 8, 0),
+        m_pixfmt(32, 24, 0, 1, rng.choice([1, 7, 255, 65535]), rng.choice([3, 255, 65535]), rng.choice([1, 255]),
+                 rng.choice([0, 8, 16, 24]), rng.choice([0, 8, 12]), rng.choice([0, 4, 16]))])
+
+
+def case_encupd(rng, k, variant):
+    """every preferred encoding x pseudo-encoding ranges x client pixel format x framebuffer content,
+    followed by real updates (full, then partial after a modification)"""
+    cfg = rand_cfg(rng, variant)
+    w, h = rng.choice([(64, 64), (80, 70), (128, 36), (33, 130), (48, 48), (17, 9)])
+    cfg.update(w=w, h=h, bpp=rng.choice([32, 32, 32, 8]), pw=0, ft=0, view=0)
+    c = Case(k, "encupd", cfg)
+    c.extra_cfg = " content=%d" % rng.choice([1, 2, 3, 3, 4, 4, 0])
+    emit_stream(rng, c, handshake_msgs(rng, cfg, minor=8), "one")
+    c.op("connect A pre")
+    c.op("run A")
+    pool = enc_pool()
+    for rnd in range(rng.choice([1, 2])):
+        msgs = []
+        pf = rand_pixfmt(rng)
+        if pf is not None:
+            msgs.append(pf)
+        pref = ENC[rng.choice(PIX_ENCS)]
+        extras = [rng.choice(pool) for _ in range(rng.choice([0, 2, 4, 8]))]
+        if rng.random() < 0.6:          # a JPEG quality / fine quality / subsampling / compression level mix
+            extras += [0xFFFFFFE0 + rng.randrange(0, 11), 0xFFFFFD00 + rng.randrange(0, 8), 0xFFFFFF00 + rng.randrange(0, 11)]
+            if rng.random() < 0.5:
+                extras.append(0xFFFFFE00 + rng.randrange(0, 102))
+        rng.shuffle(extras)
+        encs = ([pref] + extras) if rng.random() < 0.8 else (extras + [pref])
+        msgs.append(m_encodings(encs))
+        msgs.append(m_fur(0, 0, 0, w, h))
+        emit_stream(rng, c, msgs, rng.choice(["permsg", "one"]))
+        c.op("run A")
+        c.op("update A")
+        x, y = rng.randrange(w), rng.randrange(h)
+        emit_stream(rng, c, [m_fur(1, x, y, rng.randint(1, w - x), rng.randint(1, h - y))], "permsg")
+        c.op("run A")
+        c.op("update A")
     c.op("witness")
     return c
 
@@ -735,7 +843,7 @@ def gen_cases(ctx, variant):
             (case_slow, 30 if quick else 300), (case_stall, 80 if quick else 1000),
             (case_scale_update, 160 if quick else 2500), (case_clip, 80 if quick else 1200),
             (case_garbage, 100 if quick else 1500), (case_unmodelled, 40 if quick else 600),
-            (case_ws, 60 if quick else 800)]
+            (case_ws, 90 if quick else 1200), (case_encupd, 160 if quick else 2500)]
     sweep_vals = [0, 1, 2, 3, 65534, 65535] if quick else [0, 1, 2, 3, 4, 5, 255, 256, 32767, 32768, 65531, 65533, 65534, 65535]
     for (W, H) in ([(3, 2)] if quick else [(3, 2), (2, 3), (1, 1), (4, 4)]):
         cases.append(case_clip_sweep(rng, k, variant, sweep_vals, W, H).render())
@@ -840,7 +948,8 @@ def oracle_case(case, impl_lines):
         if "res=wedge" in l:
             fails.append(("the server spins forever (busy loop, never returns to the event loop): " + l.strip(),
                           {"kind": "wedge", "where": "connect" if l.startswith("connect") else "message",
-                           "what": field(l, "what", "")}))
+                           "what": field(l, "what", ""),
+                           "transport": "ws" if any(x.startswith("connect ") and " res=ws" in x for x in impl_lines) else "tcp"}))
             continue
         if l.startswith("pe ") or l.startswith("connect "):
             mx = field(l, "~mx")
@@ -981,7 +1090,7 @@ def check(ctx):
     reported = 0
     for idx, (what, feat) in oracle_fail:
         key = (feat.get("kind"), feat.get("san"), feat.get("where"), feat.get("why"), feat.get("scale_zero_width"),
-               feat.get("fur_zero_width"), feat.get("file"))
+               feat.get("fur_zero_width"), feat.get("file"), feat.get("what"), feat.get("transport"))
         if key in seen:
             continue
         seen.add(key)
@@ -993,10 +1102,11 @@ def check(ctx):
         reported += 1
         def pred(lines, feat=feat):
             il, _, _, _, _ = run_one(lines, model=False)
-            return any(f[1].get("kind") == feat.get("kind") and f[1].get("san") == feat.get("san") for f in oracle_case(lines, il))
+            return any(f[1].get("kind") == feat.get("kind") and f[1].get("san") == feat.get("san") and
+                       f[1].get("what") == feat.get("what") for f in oracle_case(lines, il))
         small = shrink_case(cases[idx], pred)
         il, ml, co, ce, mo = run_one(small)
-        fs = [f for f in oracle_case(small, il) if f[1].get("kind") == feat.get("kind")]
+        fs = [f for f in oracle_case(small, il) if f[1].get("kind") == feat.get("kind") and f[1].get("what") == feat.get("what")]
         w2, f2 = fs[0] if fs else (what, feat)
         ctx.violation(w2, f2, "script:\n" + "\n".join(small) + "\n\nimplementation output:\n" + co + "\n" + ce[-3000:] +
                       "\nmodel output:\n" + mo)
